@@ -203,7 +203,7 @@ fn entry_points<'a>(conv: &'a Beatmap, dattrs: &DifficultyAttributes, pattrs: &P
 
 fn main() {
     let ctx = Ctx::from_env("C04");
-    ctx.rule("case = (mode configuration, grammar map); per case: every Difficulty of the menu (5-10 settings x passed_objects in {unset,0,1,[N,]N+2}) x every score specification of the menu x every entry point (generic Performance::new/from with &map, map, DifficultyAttributes, PerformanceAttributes, mode attributes; attrs.performance(); mode-specific builders new/from/try_new) with the same Difficulty supplied again; oracle = identical PerformanceAttributes, embedded difficulty attributes == one-shot difficulty; results of attribute-based runs are fed back in a second generation; non-trivial = reference pp > 0");
+    ctx.rule("case = (mode configuration, grammar map); per case: every Difficulty of the menu (5-10 settings x passed_objects in {unset,0,1,[N,]N+2}) x every score specification of the menu x every entry point (generic Performance::new/from with &map, map, DifficultyAttributes, PerformanceAttributes, mode attributes; attrs.performance(); mode-specific builders new/from/try_new) with the same Difficulty supplied again; for converts additionally the calculator of the *source* map (Performance and OsuPerformance), fully configured and only then switched with try_mode / mode_or_ignore; oracle = identical PerformanceAttributes, embedded difficulty attributes == one-shot difficulty; results of attribute-based runs are fed back in a second generation; non-trivial = reference pp > 0");
     ctx.assume("the converted map (Beatmap::convert) is 'the map' for converts; conversion consistency itself is C07's business");
 
     let n_max = ctx.pick(3, 4);
